@@ -52,23 +52,19 @@ def mk_reactor(symmetry="third periodic", pitch=16.2, numRings=3, sfp=False):
     return r, core, pool
 
 
-def inject_densities(ctx, a, tag, lo=0.0, hi=10.0):
-    """Symbolic number densities: U235/U238 in the fuel, FE in the duct, NA in the inter-assembly gap, for
-    every block of assembly a.  Returns {(blockIndex, nuclide): proxy}."""
+def inject_densities(ctx, a, tag, lo=0.0, hi=10.0, nucs=NUCS):
+    """Symbolic number densities: U235/U238 in the fuel, FE in the duct, NA in the inter-assembly gap (those listed
+    in nucs), for every block of assembly a.  Returns {(blockIndex, nuclide): proxy}."""
+    where = {"fuel": (("U235", "n5"), ("U238", "n8")), "duct": (("FE", "nFe"),), "intercoolant": (("NA", "nNa"),)}
     out = {}
     for k, b in enumerate(a):
         for c in b:
-            if c.name == "fuel":
-                nd = {"U235": ctx.real("n5_%s_%d" % (tag, k), lo, hi), "U238": ctx.real("n8_%s_%d" % (tag, k), lo, hi)}
-            elif c.name == "duct":
-                nd = {"FE": ctx.real("nFe_%s_%d" % (tag, k), lo, hi)}
-            elif c.name == "intercoolant":
-                nd = {"NA": ctx.real("nNa_%s_%d" % (tag, k), lo, hi)}
-            else:
-                nd = {}
+            nd = {}
+            for nuc, short in where.get(c.name, ()):
+                if nuc in nucs:
+                    nd[nuc] = ctx.real("%s_%s_%d" % (short, tag, k), lo, hi)
+                    out[(k, nuc)] = nd[nuc]
             c.p.numberDensities = nd
-            for n, v in nd.items():
-                out[(k, n)] = v
     return out
 
 
